@@ -410,7 +410,8 @@ def _impl_verify(scn, root, repeat):
     logging.getLogger("in_toto").setLevel(logging.CRITICAL)
     os.chdir(os.path.join(root, "product"))
     try:
-        md = Metadata.load(os.path.join(root, "root.layout"))
+        # (C01 in-memory family: an object built / edited by the caller instead of a fresh load)
+        md = scn.meta.get("layout_object") or Metadata.load(os.path.join(root, "root.layout"))
     except Exception as e:  # pylint: disable=broad-except
         return {"load": {"err": exc_class(e)}}
     results = []
